@@ -17,9 +17,11 @@ pub const GEN_TOKENS: usize = 7;
 pub const GEN_ZERORUN: usize = 8;
 pub const GEN_PERIODIC: usize = 9;
 pub const GEN_ALT: usize = 10;
-/// 11 generators: coprime with every other modulus the workloads rotate on (2, 3, 4, 5, 8, 9, 16)
-pub const GEN_COUNT: usize = 11;
-pub const GEN_NAMES: [&str; 11] = ["random", "low", "high", "pad-lookalike", "mode-indicator-lookalike", "ramp", "sparse", "real-world-tokens", "zero-runs", "periodic", "alternating-extremes"];
+pub const GEN_NEARCLASS: usize = 11;
+pub const GEN_BLANKS: usize = 12;
+/// 13 generators: coprime with every other modulus the workloads rotate on (2, 3, 4, 5, 8, 9, 16)
+pub const GEN_COUNT: usize = 13;
+pub const GEN_NAMES: [&str; 13] = ["random", "low", "high", "pad-lookalike", "mode-indicator-lookalike", "ramp", "sparse", "real-world-tokens", "zero-runs", "periodic", "alternating-extremes", "narrower-class-in-disguise", "blank-padded"];
 
 /// What people actually put into QR codes, plus byte sequences with a meaning of their own in some
 /// layer (byte order marks, GS1 / ECI / AIM escapes, control characters, Shift-JIS and UTF-8
@@ -199,6 +201,46 @@ pub fn gen_payload(class: usize, len: usize, gen: usize, seed: u64) -> Vec<u8> {
             let ph = (seed % 2) as usize;
             (0..len).map(|i| if (i + ph) % 2 == 0 { alphabet(class, 0) } else { alphabet(class, span - 1) }).collect()
         }
+        // text that WOULD belong to the next narrower class after a harmless-looking normalisation: lower/mixed-case
+        // text whose upper-casing is alphanumeric (class byte), digits with a few separators (class alphanumeric),
+        // digits with leading zeros (class numeric) - "helpful" case folding, trimming or re-classification shows here
+        GEN_NEARCLASS => (0..len)
+            .map(|i| match class {
+                0 => {
+                    if i < 1 + (seed as usize % 5) {
+                        b'0'
+                    } else {
+                        b'0' + rng.below(10) as u8
+                    }
+                }
+                1 => {
+                    if rng.chance(1, 6) {
+                        *rng.pick(b" -+./:")
+                    } else {
+                        b'0' + rng.below(10) as u8
+                    }
+                }
+                _ => *rng.pick(b"abcdefghijklmnopqrstuvwxyzabcdefghijklmnopqrstuvwxyz0123456789 $%*+-./:ABCXYZ"),
+            })
+            .collect(),
+        // leading / trailing blanks and line ends around ordinary content of the class (trimming changes the payload,
+        // for class byte also the class)
+        GEN_BLANKS => {
+            let mut p: Vec<u8> = (0..len).map(|_| alphabet(class, rng.below(span))).collect();
+            let (lead, trail) = (rng.below(4).min(len / 3), (1 + rng.below(4)).min(len / 3));
+            let blank = |rng: &mut Rng| match class {
+                0 => b'0',
+                1 => b' ',
+                _ => *rng.pick(b" \t\n\r "),
+            };
+            for x in p.iter_mut().take(lead) {
+                *x = blank(&mut rng);
+            }
+            for x in p.iter_mut().rev().take(trail) {
+                *x = blank(&mut rng);
+            }
+            p
+        }
         _ => (0..len).map(|_| alphabet(class, rng.below(span))).collect(),
     };
     // pin the class
@@ -206,6 +248,7 @@ pub fn gen_payload(class: usize, len: usize, gen: usize, seed: u64) -> Vec<u8> {
         let pos = if gen == GEN_RANDOM || gen == GEN_SPARSE || gen == GEN_ZERORUN { rng.below(len) } else { len - 1 };
         p[pos] = match class {
             1 => *rng.pick(b"ABCXYZ $%*+-./:"),
+            2 if gen == GEN_NEARCLASS || gen == GEN_BLANKS => *rng.pick(b"az"),
             2 => *rng.pick(&[0x00u8, 0x0a, b'a', b'z', b',', 0x7f, 0x80, 0xff, b'!', b'_']),
             _ => p[pos],
         };
